@@ -39,7 +39,7 @@ CHECKS = {
  "C06": dict(tech="transitive field write/read effects over the call graph (mutator kind table), representation-completeness of deleting mutators vs creators/compaction, raw-handle bypass inventory; closure-predicate analysis of adjacency removals (by relationship id), dominance of endpoint liveness tests over adjacency writes, per-function field-read coherence of tier pairs",
              text="Decides which representations of an edge/node each mutator maintains: a deleting mutator that recycles ids must cover every representation creators and compaction write (three known findings: the frozen CSR tier), counts read only maintained data, creators are complete, labels of stored nodes change only through index-maintaining methods, adjacency entries are removed by relationship id only, every creator tests both endpoints, and read views read whole (frozen, buffer) pairs of one direction.", ref="§5 C06"),
  "C07": dict(tech="copy-on-write guard rule on functions taking last_mut of a version chain; generic-instantiation match for flatten over Vec<Vec<Node>>; chain-emptying callee class in delete_node; reachability of last_mut from the older-version side avoiding the clone push; write-effect pairing and base-image provenance for the relationship version log",
-             text="Decides the three structural ways versioned reads break: in-place mutation of an old version (three known findings: get_node_mut, add/remove_label), scans enumerating all versions, deletion leaving older versions; and for relationships that every property change is logged and the first logged write keeps the state it replaces (both fixed).", ref="§5 C07"),
+             text="Decides the three structural ways versioned reads break: in-place mutation of an old version (one known finding: the raw get_node_mut handle), scans enumerating all versions, deletion leaving older versions; and for relationships that every property change is logged and the first logged write keeps the state it replaces (both fixed).", ref="§5 C07"),
  "C08": dict(tech="closure-predicate evaluation over version orderings, range-type and def-use check of the drain bound, aggregate shape of the watermark",
              text="Decides that GC keeps the latest version at or below the watermark (rposition predicate class, exclusive drain of exactly that index) and that the automatic watermark is the min start version of active transactions.", ref="§5 C08"),
  "C09": dict(tech="dominance / must-pass obligations over the MIR of commit/abort, predicate evaluation of the conflict test, per-variant read-version table from the discriminant switch",
